@@ -240,7 +240,7 @@ def check(run):
     found_before = len(run.violations) + len(run.known_hit)
     progs, metas = [], []
     nontrivial = 0
-    for i in range(4000 if thorough else 600):
+    for i in range(6000 if thorough else 2000):
         fam = rng.choice(["x64", "x86", "a64", "rv"])
         labelled = rng.chance(2, 5)
         overflow = rng.chance(1, 4)
